@@ -60,6 +60,17 @@ def trait_mutations(rng, c):
                render(mk((b, ['    const NAME: &\'static str = "%s";' % b.tag, '    fn nickname() -> u8 { 1 }'], uns, tn))), fam)
         yield ('unsafe_impl@%d' % i, "Doesn't match trait definition", render(mk((b, items, True, tn))), fam)
         yield ('inherent_block@%d' % i, 'Expected trait impl, found inherent impl', render(mk((b, items, uns, '__inherent__'))), split)
+    # a trait with a required associated type and a required method: omitting either, or adding
+    # a type the trait does not have, in one block
+    tt = gp.trait_def(c.trait_name, c.trait_generics, with_type=True, by_value=True)
+    typed = [(b, items + ['    type Out = [u8; %d];' % (j + 1), '    fn k(self) -> u8 { %d }' % (j + 1)], False, tn) for j, (b, items, uns, tn) in enumerate(base_blocks)]
+    yield ('typed_wellformed', None, render(typed, tt), fam)
+    for i in range(n):
+        mk = lambda repl: [repl if j == i else x for j, x in enumerate(typed)]
+        b, items, uns, tn = typed[i]
+        yield ('missing_type@%d' % i, 'Missing in one of the impls', render(mk((b, [x for x in items if 'type Out' not in x], uns, tn)), tt), fam)
+        yield ('missing_fn@%d' % i, 'Missing in one of the impls', render(mk((b, [x for x in items if 'fn k' not in x], uns, tn)), tt), fam)
+        yield ('extra_type@%d' % i, 'Not found in trait definition', render(mk((b, items + ['    type Extra = u8;'], uns, tn)), tt), fam)
     # unsafe trait with one safe impl
     if n >= 1:
         ut = gp.trait_def(c.trait_name, c.trait_generics, unsafe=True)
